@@ -13,8 +13,12 @@ package pilosa
 // EVERY comparison x EVERY predicate of a window reaching beyond bounds and bit-depth range, every
 // between pair of a narrower window, != null, Sum/Min/Max unfiltered, filtered by set-field rows and
 // by range rows. Depth-2 write histories: every (v1 -> v2) overwrite and (v1 -> clear) on its own
-// column with a full read battery between and after. A deterministic boundary set covers depths up
-// to 63. Oracle: integer comparison / arithmetic on the model map column -> value.
+// column, (a) all columns at once with a full read battery between and after (small and bulk import
+// path, with and without the read in between), (b) one column at a time, each single write framed by
+// reads (so that set-only / clear-only bit changes meet warm row caches). A deterministic boundary
+// set covers depths up to 63. Oracle: integer comparison / arithmetic on the model column -> value.
+// Mismatches are classified by replaying known decision paths (implRange, sumDefect): a known root
+// cause is only named when the answer is exactly what that defect produces.
 
 import (
 	"context"
